@@ -8,6 +8,7 @@ mod drivers;
 mod lock;
 mod seq;
 mod shimapi;
+mod sock;
 mod urg;
 
 use serde_json::{json, Value};
